@@ -227,12 +227,14 @@ struct trace_setter : upa::detail::url_setter {
     void track(std::string& s) { cur = &s; cur0 = s.size(); }
     std::string& start_scheme() override { flush(); std::string& s = url_setter::start_scheme(); log << " ss"; track(s); return s; }
     void save_scheme() override { flush(); url_setter::save_scheme(); log << " vs"; }
-    std::string& start_part(upa::url::PartType pt) override { flush(); std::string& s = url_setter::start_part(pt); log << " sp" << static_cast<int>(pt); track(s); return s; }
-    void save_part() override { flush(); url_setter::save_part(); log << " sv"; }
+    std::string& start_part(upa::url::PartType pt) override { if (depth) return url_setter::start_part(pt); flush(); std::string& s = url_setter::start_part(pt); log << " sp" << static_cast<int>(pt); track(s); return s; }
+    void save_part() override { if (depth) { url_setter::save_part(); return; } flush(); url_setter::save_part(); log << " sv"; }
     void clear_part(upa::url::PartType pt) override { flush(); log << " cl" << static_cast<int>(pt); url_setter::clear_part(pt); }
     void empty_host() override { flush(); log << " eh"; url_setter::empty_host(); }
-    std::string& hostStart() override { flush(); log << " hs"; std::string& s = url_setter::hostStart(); cur = nullptr; track(s); return s; }
-    void hostDone(upa::HostType ht) override { flush(); log << " hd" << static_cast<int>(ht); cur = nullptr; url_setter::hostDone(ht); cur = nullptr; }
+    // hostStart() is start_part(HOST) and hostDone() begins with save_part() (both virtual): those inner calls are not logged
+    int depth = 0;
+    std::string& hostStart() override { flush(); log << " hs"; ++depth; std::string& s = url_setter::hostStart(); --depth; cur = nullptr; track(s); return s; }
+    void hostDone(upa::HostType ht) override { flush(); log << " hd" << static_cast<int>(ht); cur = nullptr; ++depth; url_setter::hostDone(ht); --depth; cur = nullptr; }
     std::string& start_path_segment() override { flush(); std::string& s = url_setter::start_path_segment(); log << " ps"; track(s); return s; }
     void save_path_segment() override { flush(); url_setter::save_path_segment(); log << " pv"; }
     void commit_path() override { flush(); log << " cp"; url_setter::commit_path(); }
@@ -963,6 +965,12 @@ static std::string run_cmd(const std::vector<std::string>& a) {
         if (tv.enc != 'b') return "ERR value-must-be-utf8";
         const std::string val = tv.s8;
         const char* first = val.data(); const char* last = first + val.size();
+        if (w == "host" || w == "hostname") {
+            // the form Impl/TraceProto.v supports: list path, not file, host part not empty and no port
+            std::string v2; for (char ch : val) if (ch != '\t' && ch != '\n' && ch != '\r') v2.push_back(ch);
+            if (u.has_opaque_path() || u.is_file_scheme() || v2.empty() || v2.find(':') != std::string::npos ||
+                v2[0] == '/' || v2[0] == '?' || v2[0] == '#' || v2[0] == '\\') return "settrace unsupported";
+        }
         const unsigned flags0 = u.flags_;
         std::string logged;
         {
@@ -971,6 +979,7 @@ static std::string run_cmd(const std::vector<std::string>& a) {
             if (w == "hash") { if (first == last) { ts.clear_part(upa::url::FRAGMENT); ts.potentially_strip_trailing_spaces_from_an_opaque_path(); } else { if (*first == '#') ++first; url_parser::url_parse(ts, first, last, nullptr, url_parser::fragment_state); } }
             else if (w == "search") { if (first == last) { ts.clear_part(upa::url::QUERY); u.clear_search_params(); ts.potentially_strip_trailing_spaces_from_an_opaque_path(); } else { if (*first == '?') ++first; url_parser::url_parse(ts, first, last, nullptr, url_parser::query_state); } }
             else if (w == "port") { if (u.canHaveUsernamePasswordPort()) { if (first == last) ts.clear_part(upa::url::PORT); else url_parser::url_parse(ts, first, last, nullptr, url_parser::port_state); } }
+            else if (w == "host" || w == "hostname") { if (!u.has_opaque_path() && u.is_valid()) url_parser::url_parse(ts, first, last, nullptr, w == "host" ? url_parser::host_state : url_parser::hostname_state); }
             else if (w == "username" || w == "password") {
                 if (u.canHaveUsernamePasswordPort()) { std::string& str = ts.start_part(w == "username" ? upa::url::USERNAME : upa::url::PASSWORD);
                     upa::detail::append_utf8_percent_encoded(first, last, upa::userinfo_no_encode_set, str); ts.save_part(); } }
@@ -981,11 +990,12 @@ static std::string run_cmd(const std::vector<std::string>& a) {
         if (added) logged += " fl" + std::to_string(added);
         // the real setter on the second object
         if (w == "hash") u2.hash(val); else if (w == "search") u2.search(val); else if (w == "port") u2.port(val);
-        else if (w == "username") u2.username(val); else u2.password(val);
+        else if (w == "username") u2.username(val); else if (w == "password") u2.password(val);
+        else if (w == "host") u2.host(val); else u2.hostname(val);
         const bool glue = obs(u) == obs(u2) && repr_str(u) == repr_str(u2);
         const bool single_clear = logged.compare(0, 3, " cl") == 0 && logged.find(' ', 1) == std::string::npos;
         std::string out = "settrace" + logged + " | ";
-        if (single_clear && u.has_opaque_path()) out += "- rec=1"; else out += repr_str(u) + " rec=1";
+        if ((single_clear && u.has_opaque_path()) || logged.empty()) out += "- rec=1"; else out += repr_str(u) + " rec=1";
         return out + (glue ? "" : " glue=0"); }
     if (c == "raw") {   // raw <slot>: the unnormalised hidden representation (used by the generator of the `ser` stream, not compared)
         need(1); const int sl = slot_of(a[1]); if (sl < 0) return "ERR"; const upa::url& u = U(sl);
